@@ -1,4 +1,209 @@
-(** C05 — property theorems (statements + [exact] + [Print Assumptions] only). *)
+(** C05 — property theorems (statements + [exact] + [Print Assumptions] only). Every theorem quantifies over all schedules of [Conc.cstep] (well formed: fresh thread ids at spawn, one background flush at a time). *)
 From RainVerif Require Import Params.
-From RainVerif.model Require Import Bytes Key.
+From RainVerif.model Require Import Bytes Key Block Table TableSpec Lsm LsmSpec DbSpec Conc.
+From RainVerif.proofs Require Import GetProofs ConcProofs.
+Import ListNotations.
 Open Scope N_scope.
+
+(** ** the reachability invariant *)
+Theorem C05a_invariant : forall evs, wf_sched true evs = true -> CInv (sched_run true evs).
+Proof. exact cinv_reachable. Qed.
+Print Assumptions C05a_invariant.
+
+Theorem C05a_invariant_ghost : forall evs,
+  wf_sched true evs = true -> GInv (writers evs) (commit_log evs) (sched_run true evs).
+Proof. exact ginv_reachable. Qed.
+Print Assumptions C05a_invariant_ghost.
+
+Theorem C05a_invariant_bool : forall evs, wf_sched true evs = true -> cinv_b (sched_run true evs) = true.
+Proof. exact cinv_b_reachable. Qed.
+Print Assumptions C05a_invariant_bool.
+
+Theorem C05a_entries_exact : forall evs,
+  wf_sched true evs = true ->
+  let s := sched_run true evs in
+  c_seq s = len (ops (commit_log evs)) /\
+  (forall e, In e (all_centries s) <-> In e (ents 0 (ops (commit_log evs) ++ inflight s))) /\
+  NoDup (map (fun e : entry => ik_seq (fst e)) (mall (c_mems s))).
+Proof. exact entries_exact. Qed.
+Print Assumptions C05a_entries_exact.
+
+Theorem C05a_unpublished_entries_inflight : forall evs e,
+  wf_sched true evs = true ->
+  let s := sched_run true evs in
+  In e (all_centries s) ->
+  1 <= ik_seq (fst e) /\ (c_seq s < ik_seq (fst e) -> In e (ents (c_seq s) (inflight s))).
+Proof. exact unpublished_entries_inflight. Qed.
+Print Assumptions C05a_unpublished_entries_inflight.
+
+Theorem C05a_one_leader : forall evs t1 t2 p1 p2,
+  wf_sched true evs = true ->
+  let s := sched_run true evs in
+  pc_of s t1 = Some p1 -> pc_of s t2 = Some p2 -> leading p1 = true -> leading p2 = true ->
+  t1 = t2 /\ exists rest, c_queue s = t1 :: rest.
+Proof. exact one_leader. Qed.
+Print Assumptions C05a_one_leader.
+
+Theorem C05a_parked_reader : forall evs t k q mo imm tabs,
+  wf_sched true evs = true ->
+  let s := sched_run true evs in
+  pc_of s t = Some (RCaptured k q mo imm tabs) ->
+  exists m, mo = Some m /\ reader_ok s q m imm tabs /\
+            lookup_sources (rsrcs s m imm tabs) k q = spec_get s k q.
+Proof. exact parked_reader_ok. Qed.
+Print Assumptions C05a_parked_reader.
+
+(** ** T2 (C05): no lost or stale read *)
+Theorem C05_get_linearizable : forall evs1 t c evs2 k r,
+  wf_sched true (evs1 ++ EStep t c :: evs2) = true ->
+  pc_of (sched_run true evs1) t = Some (RStart k) ->
+  pc_of (sched_run true (evs1 ++ EStep t c :: evs2)) t = Some (Done (Some r)) ->
+  r = spec_get (sched_run true evs1) k (c_seq (sched_run true evs1)).
+Proof. exact get_linearizable. Qed.
+Print Assumptions C05_get_linearizable.
+
+Theorem C05_get_linearizable_map : forall evs1 t c evs2 k r,
+  wf_sched true (evs1 ++ EStep t c :: evs2) = true ->
+  pc_of (sched_run true evs1) t = Some (RStart k) ->
+  pc_of (sched_run true (evs1 ++ EStep t c :: evs2)) t = Some (Done (Some r)) ->
+  r = map_get k (map_apply [] (ops (commit_log evs1))).
+Proof. exact get_linearizable_log. Qed.
+Print Assumptions C05_get_linearizable_map.
+
+Theorem C05_read_sees_acknowledged : forall evs1 t c evs2 k r t' b r',
+  wf_sched true (evs1 ++ EStep t c :: evs2) = true ->
+  pc_of (sched_run true evs1) t = Some (RStart k) ->
+  pc_of (sched_run true (evs1 ++ EStep t c :: evs2)) t = Some (Done (Some r)) ->
+  In (ESpawn t' (PWrite b)) evs1 -> pc_of (sched_run true evs1) t' = Some (Done r') ->
+  exists l1 l2, commit_log evs1 = l1 ++ (t', b) :: l2 /\
+                r = map_get k (map_apply [] (ops l1 ++ b ++ ops l2)).
+Proof. exact read_sees_acknowledged. Qed.
+Print Assumptions C05_read_sees_acknowledged.
+
+Theorem C05_read_ignores_later_writes : forall evs1 t' b,
+  wf_sched true evs1 = true -> ~ In (ESpawn t' (PWrite b)) evs1 -> ~ In (t', b) (commit_log evs1).
+Proof. exact read_ignores_later_writes. Qed.
+Print Assumptions C05_read_ignores_later_writes.
+
+Theorem C05_c_seq_monotone : forall evs1 evs2,
+  wf_sched true (evs1 ++ evs2) = true ->
+  c_seq (sched_run true evs1) <= c_seq (sched_run true (evs1 ++ evs2)).
+Proof. exact c_seq_monotone. Qed.
+Print Assumptions C05_c_seq_monotone.
+
+Theorem C05_commit_log_grows : forall evs1 evs2,
+  exists l, commit_log (evs1 ++ evs2) = commit_log evs1 ++ l.
+Proof. exact commit_log_app. Qed.
+Print Assumptions C05_commit_log_grows.
+
+(** ** T3: the unrepaired code loses a committed write *)
+Theorem C05_d6_refuted :
+  exists evs1 t c evs2 k r,
+    wf_sched false (evs1 ++ EStep t c :: evs2) = true /\
+    pc_of (sched_run false evs1) t = Some (RStart k) /\
+    pc_of (sched_run false (evs1 ++ EStep t c :: evs2)) t = Some (Done (Some r)) /\
+    spec_get (sched_run false evs1) k (c_seq (sched_run false evs1)) = Some [118] /\
+    r = None.
+Proof. exact C05_d6_refuted_proof. Qed.
+Print Assumptions C05_d6_refuted.
+
+Theorem C05_d6_fixed :
+  pc_of (sched_run true (d6_evs1 ++ EStep 2 ch0 :: d6_evs2)) 2 = Some (Done (Some (Some [118]))).
+Proof. exact C05_d6_fixed_proof. Qed.
+Print Assumptions C05_d6_fixed.
+
+(** ** T5: non-vacuity — two writers merged into one group, a rotation and a flush in the
+    middle, readers parked across all of it *)
+Definition ka : bytes := [97].
+Definition kb : bytes := [98].
+
+Definition ex_evs : list sched_ev :=
+  [ESpawn 1 (PWrite [WPut ka [1]]);
+   EStep 1 ch0; EStep 1 ch0; EStep 1 ch0; EStep 1 ch0; EStep 1 ch0;
+   ESpawn 2 (PGet ka); EStep 2 ch0;
+   ESpawn 3 (PWrite [WPut ka [2]; WPut kb [7]]); ESpawn 4 (PWrite [WDel ka]);
+   EStep 3 (mkChoice 2 true);
+   EStep 3 ch0; EStep 3 ch0; EStep 3 ch0;
+   ESpawn 5 (PGet ka); EStep 5 ch0;
+   ESpawn 6 PFlush; EStep 6 ch0; EStep 6 ch0;
+   EStep 3 ch0; EStep 3 ch0; EStep 3 ch0;
+   ESpawn 7 (PGet ka); EStep 7 ch0; ESpawn 8 (PGet kb); EStep 8 ch0;
+   EStep 2 ch0; EStep 5 ch0; EStep 7 ch0; EStep 8 ch0].
+
+Example C05a_example_wf : wf_sched true ex_evs = true.
+Proof. vm_compute. reflexivity. Qed.
+
+(** readers 2 and 5 captured sequence 1 (5 while the merged group was in flight and after the
+    rotation) and are parked across rotation, flush and publication: both return the value at
+    sequence 1; readers 7 and 8 start after the publication of the merged group *)
+Example C05a_example_results :
+  map (pc_of (sched_run true ex_evs)) [1; 2; 3; 4; 5; 6; 7; 8] =
+  [Some (Done None); Some (Done (Some (Some [1]))); Some (Done None); Some (Done None);
+   Some (Done (Some (Some [1]))); Some (Done None); Some (Done (Some None));
+   Some (Done (Some (Some [7])))].
+Proof. vm_compute. reflexivity. Qed.
+
+(** the two writers 3 and 4 were merged into one group (4 is a follower of 3), after a rotation *)
+Example C05a_example_merged :
+  let s := sched_run true (firstn 11 ex_evs) in
+  pc_of s 4 = Some WFollower /\ c_mem s = 1 /\ c_imm s = Some 0 /\
+  pc_of s 3 = Some (WBeforeWal [(3, [WPut ka [2]; WPut kb [7]]); (4, [WDel ka])] 1 1).
+Proof. vm_compute. repeat split; reflexivity. Qed.
+
+(** reader 5 is parked with the in-flight entries 2 and 3 in its memtable and the flushed
+    memtable object 0 *)
+Example C05a_example_parked :
+  pc_of (sched_run true (firstn 22 ex_evs)) 5 = Some (RCaptured ka 1 (Some 1) (Some 0) []) /\
+  c_imm (sched_run true (firstn 22 ex_evs)) = None /\
+  length (c_tables (sched_run true (firstn 22 ex_evs))) = 1%nat.
+Proof. vm_compute. repeat split; reflexivity. Qed.
+
+Example C05a_example_commit_log :
+  commit_log ex_evs = [(1, [WPut ka [1]]); (3, [WPut ka [2]; WPut kb [7]]); (4, [WDel ka])].
+Proof. vm_compute. reflexivity. Qed.
+
+(** the published sequence numbers of the run: 0, 1 and 4 — never 2 or 3 *)
+Example C05a_example_published :
+  nodup N.eq_dec (map (fun n => c_seq (sched_run true (firstn n ex_evs))) (seq 0 (S (length ex_evs))))
+  = [0; 1; 4].
+Proof. vm_compute. reflexivity. Qed.
+
+(** the boolean shadow of the invariant, evaluated in every prefix of the run; and the
+    invariant itself by the theorem *)
+Example C05a_example_cinv_b :
+  forallb (fun n => cinv_b (sched_run true (firstn n ex_evs))) (seq 0 (S (length ex_evs))) = true.
+Proof. vm_compute. reflexivity. Qed.
+
+Example C05a_example_cinv : CInv (sched_run true ex_evs).
+Proof. exact (cinv_reachable ex_evs C05a_example_wf). Qed.
+
+(** a second flush thread running concurrently is what [wf_sched] excludes: with two flushers
+    an immutable memtable is dropped without being written (model artefact: raindb has a single
+    background thread) *)
+Example C05a_two_flushers_rejected :
+  wf_sched true [ESpawn 1 PFlush; ESpawn 2 PFlush] = false.
+Proof. vm_compute. reflexivity. Qed.
+
+(** the clause is needed (in the model): with two flush threads in flight the second one
+    installs a stale table and clears an immutable memtable it never wrote — a committed
+    write becomes invisible *)
+Definition two_flushers_evs : list sched_ev :=
+  [ESpawn 1 (PWrite [WPut ka [1]]);
+   EStep 1 chR; EStep 1 ch0; EStep 1 ch0; EStep 1 ch0; EStep 1 ch0;
+   ESpawn 10 PFlush; ESpawn 11 PFlush; EStep 10 ch0; EStep 11 ch0; EStep 10 ch0;
+   ESpawn 2 (PWrite [WPut kb [2]]);
+   EStep 2 chR; EStep 2 ch0; EStep 2 ch0; EStep 2 ch0; EStep 2 ch0;
+   EStep 11 ch0;
+   ESpawn 3 (PGet ka); EStep 3 ch0; EStep 3 ch0].
+
+Example C05a_two_flushers_lose_data :
+  wf_sched true two_flushers_evs = false /\
+  pc_of (sched_run true two_flushers_evs) 3 = Some (Done (Some None)) /\
+  spec_get (sched_run true two_flushers_evs) ka (c_seq (sched_run true two_flushers_evs)) = Some [1].
+Proof. vm_compute. repeat split; reflexivity. Qed.
+
+(** ** the side condition: thread ids spawned at most once (static) and one flush at a time *)
+Theorem C05a_wf_sched_static : forall d evs,
+  NoDup (spawn_ids evs) -> flush_disc d evs = true -> wf_sched d evs = true.
+Proof. exact wf_sched_static. Qed.
+Print Assumptions C05a_wf_sched_static.
